@@ -58,7 +58,10 @@ def probes(r, sp):
         n = sp["length"]
         if n is not None:
             out += [("a" * n, ("store", "a" * n), "len=max"), ("a" * (n + 1), ("reject",), "len=max+1"),
-                    ("\xe9" * n, ("store", "\xe9" * n), "len=max non-ascii")]
+                    ("\xe9" * n, ("store", "\xe9" * n), "len=max non-ascii"),
+                    # blanks count like any other character
+                    ("a" * n + " ", ("reject",), "len=max + trailing blank"), (" " + "a" * n, ("reject",), "leading blank + len=max"),
+                    (" " * (n + 1), ("reject",), "max+1 blanks"), ("a" * (n - 1) + " " if n > 1 else "a", ("store", "a" * (n - 1) + " " if n > 1 else "a"), "blank inside the limit")]
         out += [("x", ("store", "x"), "inside"), (schemaio.rand_text(r, n), None, "random")]
         if k == "text":
             out += [(["a", "b"], ("reject",), "component for text")]
@@ -333,6 +336,40 @@ def run(ctx):
         if ml is not None and codecio.canon_model(ml) != got:
             it.disagree({"value": codecio.cps(v)}, got, ml)
     streams.append(it)
+
+    # decimal fields take numbers (a program fills them; the decoder only yields text, which they refuse): int, float
+    # and Decimal objects in every notation and size; what is stored is a string that reads back to the same number
+    from decimal import Decimal
+    dq = Stream("decimal-objects")
+    dvals = [0, 1, -7, 10 ** 30, 0.5, 2.5, -0.125, 1e-07, 1e22, 1.2345678e-05, 123456789.125,
+             Decimal("0"), Decimal("1.50"), Decimal("-2.5E+3"), Decimal("1E-7"), Decimal("1E+22"),
+             Decimal("1.2345678901234567890123456789012E+40"), Decimal("123456789012345678901234567890.123456789"),
+             Decimal("9" * 40), Decimal("0." + "0" * 30 + "1")]
+    fobj = fields.DecimalField(name="x")
+    import decimal as _decimal
+    for prec in (28, 6):
+        old = _decimal.getcontext().prec
+        _decimal.getcontext().prec = prec
+        try:
+            for v in dvals:
+                case = {"value": repr(v), "decimal_context_precision": prec}
+                dq.case(case)
+                try:
+                    stored = fobj._set_value(v)
+                except Exception as e:  # noqa
+                    dq.fail(dict(case, error=type(e).__name__), "a number is refused by a decimal field", "decimal/rejected")
+                    continue
+                try:
+                    back = Decimal(stored) if not isinstance(stored, Decimal) else stored
+                    same = back == (Decimal(repr(v)) if isinstance(v, float) else Decimal(v))
+                except Exception:
+                    same = False
+                if not isinstance(stored, str) or not same:
+                    dq.fail(dict(case, stored=repr(stored)), "the stored text %r does not read back to the accepted number" % (stored,),
+                            "decimal/read-back")
+        finally:
+            _decimal.getcontext().prec = old
+    streams.append(dq)
 
     # every way to put occurrences into a repeatable field: append, extend, +=, insert, item assignment.  Each item
     # is checked like a wire value; when one of them violates its constraint an error is raised and the record is
